@@ -554,6 +554,8 @@ func run(cmd string, args []string) int {
 		return cmdNegotiate(args)
 	case "fragcheck":
 		return cmdFragCheck(args)
+	case "codeccheck":
+		return cmdCodecCheck(args)
 	}
 	fmt.Fprintln(os.Stderr, "unknown command", cmd)
 	return 2
